@@ -203,6 +203,9 @@ def proof_check_streams(pid, name, extra=()):
     if gens.get("streams_error"):
         proof["ok"] = False
         proof["problems"].append("translator tools/gen_streams.py cannot read the current source: " + gens["streams_error"])
+    if gens.get("wiring_error") and (name == "C20Wiring" or "C20Wiring" in extra):
+        proof["ok"] = False
+        proof["problems"].append("translator tools/gen_wiring.py cannot read PIDWrapper::new in the current source: " + gens["wiring_error"])
     if gens.get("ref_error") and (name == "C09Connect" or "C09Connect" in extra):
         proof["ok"] = False
         proof["problems"].append("translator tools/gen_ref.py cannot read Terminal::disconnect / connect in the current source: " + gens["ref_error"])
@@ -315,12 +318,18 @@ def gen_sources():
         except (rustmini.ParseError, KeyError, IndexError) as ex:
             rinfo, rerr = None, "%s: %s" % (type(ex).__name__, ex)
             _rm_gen("GenRef")
+        try:
+            import gen_wiring
+            winfo, werr = gen_wiring.main(REPO, gen_dir()), None
+        except Exception as ex:
+            winfo, werr = None, "%s: %s" % (type(ex).__name__, ex)
+            _rm_gen("GenWiring")
         # a table that could not be regenerated leaves nothing behind, neither source nor compiled file
         if ferr: _rm_gen("GenFormulas")
         if serr: _rm_gen("GenStreams")
         if oerr: _rm_gen("GenOps")
     return {"constants": items, "n_pub_const": n_all, "accessors": accs, "ctors": ctors, "formulas": flines, "formulas_error": ferr,
-            "streams": sinfo, "streams_error": serr, "ops": oinfo, "ops_error": oerr, "ref": rinfo, "ref_error": rerr}
+            "streams": sinfo, "streams_error": serr, "ops": oinfo, "ops_error": oerr, "ref": rinfo, "ref_error": rerr, "wiring": winfo, "wiring_error": werr}
 
 
 def compile_gen_theorems(name, extra_gen=()):
